@@ -8,7 +8,7 @@ from statistics import NormalDist
 from ..astutil import (call_name, calls_in, const_value, find_func, is_self_attr, names_in, parse_expr, parse_stmt,
                        replace_node)
 from ..frontend import AnalysisError, walk_function
-from ..nf import RF, Translator, NFUnsupported, to_nf
+from ..nf import RF, Translator, NFUnsupported, to_nf, _subst_atom
 from ..ordertable import parse_pred
 from ..report import norm_text
 from ..sibling import rename
@@ -69,7 +69,7 @@ class CurveNF:
 
 
 def run(ctx):
-    for r in (_curves, _pram, _constants, _beta, _half):
+    for r in (_curves, _pram, _constants, _beta, _half, _accumulation):
         ctx.attempt(r)
 
 
@@ -226,7 +226,7 @@ def _pram(ctx):
         if isinstance(e, ast.Attribute) and is_self_attr(e.value, "_assessment_parameters"):
             return e.attr
         if isinstance(e, ast.Attribute) and is_self_attr(e.value, "_constants"):
-            return e.attr
+            return "table_" + e.attr        # material-group table value, not the user's assessment parameter
         if isinstance(e, ast.Name):
             return e.id
         return None
@@ -265,8 +265,8 @@ def _pram(ctx):
         if ok and rad == RF.sym("discriminant") * RF.sym("epsilon_a") * RF.sym("E"):
             ctx.holds(f, stores["P_RAM"], "P_RAM == sqrt(discriminant * eps_a * E) where discriminant >= 0, else 0")
         else:
-            ctx.violated(f, stores["P_RAM"], "P_RAM column is %s; expected sqrt((S_a + k S_m) eps_a E) under discriminant >= 0, "
-                         "0 otherwise" % norm_text(stores["P_RAM"].value)[:120])
+            ctx.violated(f, stores["P_RAM"], "P_RAM column is %s (radicand %r); expected sqrt((S_a + k S_m) eps_a E) with E of the "
+                         "assessment parameters under discriminant >= 0, 0 otherwise" % (norm_text(stores["P_RAM"].value)[:120], rad))
     except NFUnsupported as e:
         raise AnalysisError("P_RAM formula outside the fragment: %s" % e)
     # M_sigma identical in P_RAM and P_RAJ
@@ -287,7 +287,7 @@ def _pram(ctx):
                 return loc[e.id]
             return atom(e)
         ms.append((fn, st[0], to_nf(st[0].value, atom=atom_m)))
-    if ms[0][2] == ms[1][2] == to_nf(parse_expr("a_M*R_m/1000 + b_M")):
+    if ms[0][2] == ms[1][2] == to_nf(parse_expr("table_a_M*R_m/1000 + table_b_M")):
         ctx.holds(ms[1][0], ms[1][1], "M_sigma = a_M * 1e-3 * R_m + b_M in both damage parameters")
     else:
         ctx.violated(ms[1][0], ms[1][1], "mean stress sensitivity differs between P_RAM (%r) and P_RAJ (%r)" % (ms[0][2], ms[1][2]))
@@ -459,6 +459,137 @@ def _beta(ctx):
         ctx.violated(gb, br[0] if br else gb.node, "blanket load safety factors are %s, expected {2.5: 1.1, 50: 1.0}" % vals)
 
 
+def _attr_defs(prog, ci, attr):
+    out = []
+    for name, fs in ci.methods.items():
+        f = fs[-1]
+        for st in walk_function(f.node):
+            if isinstance(st, ast.Assign) and any(is_self_attr(t, attr) for t in st.targets):
+                out.append((f, st))
+    return out
+
+
+def _run_filter(e):
+    """the run_index values an expression over the collective is restricted to (None: all rows)"""
+    vals = set()
+    for n in ast.walk(e):
+        if isinstance(n, ast.Compare) and len(n.ops) == 1 and isinstance(n.ops[0], ast.Eq) and "run_index" in norm_text(n.left):
+            vals.add(const_value(n.comparators[0]))
+    return vals or None
+
+
+def _accumulation(ctx):
+    """Lifetime accumulation of the two damage calculators.  The early-failure index is a position in the cumulative damage
+    of the whole hysteresis table (both passes), so the bound it is compared with must be the row count of that same table;
+    both lifetime properties of a class use the same early-failure test; the P_RAM repetition count is
+    (1 - D_1)/D_2 + 1 with D_1, D_2 the damage sums of pass 1 and pass 2, and cycles per repetition is the pass-2 count."""
+    ctx.rule("R-C09-6", floor=8, what="early-failure index and its bound refer to the same table; both lifetime properties agree; x = (1-D1)/D2")
+    _accumulation_core(ctx)
+
+
+def _accumulation_core(ctx):
+    prog = ctx.prog
+    for cname in ("DamageCalculatorPRAM", "DamageCalculatorPRAJ"):
+        ci = prog.cls(DC + cname)
+        tests = []
+        for prop in ("lifetime_n_times_load_sequence", "lifetime_n_cycles"):
+            f = prog.lookup_method(ci, prop)
+            w = [c for c in calls_in(f.node) if call_name(c) == "np.where" and len(c.args) == 3 and
+                 isinstance(c.args[0], ast.Compare) and is_self_attr(c.args[0].left) and is_self_attr(c.args[0].comparators[0])
+                 and isinstance(c.args[0].ops[0], ast.Lt)]
+            if len(w) != 1:
+                raise AnalysisError("%s.%s: early-failure selection not found" % (cname, prop))
+            c = w[0]
+            idx_attr, bound_attr = c.args[0].left.attr, c.args[0].comparators[0].attr
+            idefs, bdefs = _attr_defs(prog, ci, idx_attr), _attr_defs(prog, ci, bound_attr)
+            if not idefs or not bdefs:
+                raise AnalysisError("%s: definitions of %s / %s not found" % (cname, idx_attr, bound_attr))
+            i_ok = all("searchsorted" in norm_text(st.value) and "cumulative_damage" in norm_text(st.value) for _, st in idefs)
+            ifil = {frozenset(_run_filter(st.value) or ()) for _, st in idefs}
+            bfil = {frozenset(_run_filter(st.value) or ()) for _, st in bdefs}
+            b_cnt = all(any(isinstance(x.func, ast.Attribute) and x.func.attr in ("count", "size") for x in calls_in(st.value)) or
+                        call_name(st.value) == "len" for _, st in bdefs)
+            if i_ok and b_cnt and ifil == bfil and len(ifil) == 1:
+                ctx.holds(f, c, "%s.%s: position in the cumulative damage of %s is compared with the row count of the same rows (%s)"
+                          % (cname, prop, "all rows" if not next(iter(ifil)) else "run %s" % sorted(next(iter(ifil))), bound_attr))
+            else:
+                ctx.violated(f, c, "%s.%s: the early-failure test compares %s (a position in the cumulative damage over %s) with "
+                             "%s (a count over %s): a failure position between the two counts is treated as no early failure%s"
+                             % (cname, prop, idx_attr, "all rows" if ifil == {frozenset()} else "rows %s" % [sorted(x) for x in ifil],
+                                bound_attr, "all rows" if bfil == {frozenset()} else "rows of run %s" % [sorted(x) for x in bfil],
+                                "" if i_ok and b_cnt else " (or the operands are not an index / a count)"),
+                             text="early failure bound %s.%s" % (cname, prop))
+            tests.append((f, c, norm_text(c.args[0]), c))
+        if tests[0][2] == tests[1][2]:
+            ctx.holds(tests[1][0], tests[1][1], "%s: both lifetime properties use the same early-failure test %s" % (cname, tests[0][2]))
+        else:
+            ctx.violated(tests[1][0], tests[1][1], "%s: lifetime_n_times_load_sequence tests %s but lifetime_n_cycles tests %s: the two "
+                         "results contradict each other for some tables" % (cname, tests[0][2], tests[1][2]), text="early failure siblings " + cname)
+        # in the early-failure case the cycles are the failure position itself, the repetitions 0
+        f1, c1 = tests[0][0], tests[0][3]
+        f2, c2 = tests[1][0], tests[1][3]
+        if const_value(c1.args[1]) == 0 and is_self_attr(c2.args[1], c2.args[0].left.attr):
+            ctx.holds(f2, c2, "%s: early failure -> 0 repetitions, cycles = failure position" % cname)
+        else:
+            ctx.violated(f2, c2, "%s: in the early-failure case the results are %s / %s, expected 0 and the failure position"
+                         % (cname, norm_text(c1.args[1]), norm_text(c2.args[1])), text="early failure values " + cname)
+    # P_RAM: x and cycles per repetition
+    ci = prog.cls(DC + "DamageCalculatorPRAM")
+    f = prog.lookup_method(ci, "lifetime_n_times_load_sequence")
+    sums = {}
+    for st in walk_function(f.node):
+        if isinstance(st, ast.Assign) and isinstance(st.targets[0], ast.Name) and isinstance(st.value, ast.Call) and \
+                isinstance(st.value.func, ast.Attribute) and st.value.func.attr == "sum":
+            fl = _run_filter(st.value)
+            if fl and len(fl) == 1 and '"D"' in norm_text(st.value).replace("'", '"'):
+                sums[st.targets[0].id] = next(iter(fl))
+    xs = [st for st in walk_function(f.node) if isinstance(st, ast.Assign) and isinstance(st.value, ast.Call) and
+          call_name(st.value) == "np.where" and len(st.value.args) == 3 and isinstance(st.value.args[0], ast.Compare) and
+          const_value(st.value.args[0].comparators[0]) == 0]
+    if len(xs) != 1 or set(sums.values()) != {1, 2}:
+        raise AnalysisError("lifetime_n_times_load_sequence: damage sums of pass 1/2 or the x formula not found")
+    d1 = next(k for k, v in sums.items() if v == 1)
+    d2 = next(k for k, v in sums.items() if v == 2)
+
+    def atom(e):
+        if isinstance(e, ast.Name) and e.id in (d1, d2):
+            return "D1" if e.id == d1 else "D2"
+        return None
+    try:
+        gen = to_nf(xs[0].value.args[2], atom=atom)
+        spec = to_nf(xs[0].value.args[1], atom=atom)
+        want = to_nf(parse_expr("(1 - D1) / D2"))
+        ok = gen == want and spec == _subst_atom(want, "D1", RF.const(0)) and norm_text(xs[0].value.args[0].left) == d1
+    except NFUnsupported:
+        ok = False
+    if ok:
+        ctx.holds(f, xs[0], "x = (1 - D_1)/D_2 with D_1 = damage of pass 1, D_2 = damage of pass 2 (special case D_1 = 0 consistent)")
+    else:
+        ctx.violated(f, xs[0], "the number of repetitions of pass 2 is %s; expected (1 - D_1)/D_2" % norm_text(xs[0].value), text="x formula")
+    res = [c for c in calls_in(f.node) if call_name(c) == "np.where" and is_self_attr(c.args[0].left if isinstance(c.args[0], ast.Compare) else None)]
+    xname = xs[0].targets[0].id
+    try:
+        ok = bool(res) and to_nf(res[0].args[2]) == to_nf(parse_expr("%s + 1" % xname))
+    except NFUnsupported:
+        ok = False
+    if ok:
+        ctx.holds(f, res[0], "repetitions of the sequence = x + 1 (pass 1 counts once)")
+    else:
+        ctx.violated(f, res[0] if res else f.node, "repetitions of the sequence are not x + 1", text="x plus one")
+    g = prog.lookup_method(ci, "lifetime_n_cycles")
+    w = [c for c in calls_in(g.node) if call_name(c) == "np.where"][0]
+    per = [n for n in ast.walk(w.args[2]) if is_self_attr(n)]
+    pdefs = [d for n in per for d in _attr_defs(prog, ci, n.attr)]
+    pf = {frozenset(_run_filter(st.value) or ()) for _, st in pdefs}
+    uses_x1 = any(isinstance(n, ast.Name) for n in ast.walk(w.args[2])) or any(
+        isinstance(n, ast.Attribute) and n.attr == "lifetime_n_times_load_sequence" for n in ast.walk(w.args[2]))
+    if pdefs and pf == {frozenset({2})} and isinstance(w.args[2], ast.BinOp) and isinstance(w.args[2].op, ast.Mult) and uses_x1:
+        ctx.holds(g, w, "cycles = repetitions * number of hystereses of pass 2")
+    else:
+        ctx.violated(g, w, "cycles until failure are %s; expected repetitions times the hysteresis count of pass 2" % norm_text(w.args[2]),
+                     text="cycles per repetition")
+
+
 def _half(ctx):
     prog = ctx.prog
     ctx.rule("R-C09-5", floor=4, what="half hystereses count 1/2 in all copies of the damage formula; N copies agree")
@@ -521,6 +652,50 @@ LP = "src/pylife/strength/fkm_load_distribution.py"
 
 def variants():
     out = []
+
+    def table_E(tree):
+        f = find_func(tree, "P_RAM._compute_values")
+        for n in ast.walk(f):
+            if isinstance(n, ast.Attribute) and n.attr == "E" and is_self_attr(n.value, "_assessment_parameters"):
+                n.value.attr = "_constants"
+                return True
+        return False
+    out.append(witness("P_RAM uses the table value of E instead of the assessment parameter", DPP, table_E, "R-C09-2"))
+
+    def early_bound_run2(tree):
+        f = find_func(tree, "DamageCalculatorPRAM.lifetime_n_cycles")
+        for n in ast.walk(f):
+            if isinstance(n, ast.Compare) and is_self_attr(n.comparators[0], "_n_hystereses"):
+                n.comparators[0].attr = "_n_hystereses_run_2"
+                return True
+        return False
+    out.append(witness("early-failure bound is the pass-2 count", DCP, early_bound_run2, "R-C09-6"))
+
+    def x_wrong(tree):
+        f = find_func(tree, "DamageCalculatorPRAM.lifetime_n_times_load_sequence")
+        for n in ast.walk(f):
+            if isinstance(n, ast.BinOp) and isinstance(n.op, ast.Div) and isinstance(n.left, ast.BinOp) and isinstance(n.left.op, ast.Sub):
+                n.right = parse_expr("damage_sum_first_run")
+                return True
+        return False
+    out.append(witness("x = (1 - D1)/D1", DCP, x_wrong, "R-C09-6"))
+
+    def praj_early_value(tree):
+        f = find_func(tree, "DamageCalculatorPRAJ.lifetime_n_cycles")
+        for c in calls_in(f):
+            if call_name(c) == "np.where":
+                c.args[1] = parse_expr("self._n_hystereses")
+                return True
+        return False
+    out.append(witness("P_RAJ early failure reports the table length", DCP, praj_early_value, "R-C09-6"))
+
+    def x_rewritten(tree):
+        f = find_func(tree, "DamageCalculatorPRAM.lifetime_n_times_load_sequence")
+        for n in ast.walk(f):
+            if isinstance(n, ast.BinOp) and isinstance(n.op, ast.Div) and isinstance(n.left, ast.BinOp) and isinstance(n.left.op, ast.Sub):
+                return replace_node(n, parse_expr("1 / damage_sum_second_run - damage_sum_first_run / damage_sum_second_run"))
+        return False
+    out.append(twin("x written as 1/D2 - D1/D2", DCP, x_rewritten))
 
     def swap_d(tree):
         f = find_func(tree, "WoehlerCurvePRAM.calc_P_RAM")
